@@ -12,6 +12,10 @@ cls <k> <parents|none> <accessors|none> <cfg|nodefaults>    define palette class
 pal <k> <0|1>                           P_k(conf, no_color=…), every accessor rendered -> ok a=prefix;… | err E
 get <id>                                conf.get_color(id)                            -> ok <prefix>
 ids                                     sorted ids with R(esolved)/U(nresolved)       -> ok id:R;…
+rep                                     conf.make_report(): per id status and colour  -> ok id:R:prefix;id:U:-;…
+glob                                    set_global_colors_config(conf)                -> ok | err E
+syn <k>                                 P_k(synced=True) (conf must be the global one) -> ok a=prefix;… | err E
+sget <k>                                accessor attributes of that synced palette now -> ok a=prefix;…
 ```
 `<cfg>` is a dict: `( key value key value … )`, value = `s:<cps>` (string) | `x` (other type) | dict;
 keys, ids and names are comma-separated code points (`-` = empty).  After an `err` reply the
@@ -20,7 +24,7 @@ configuration is in a half-updated state that is not modelled: every later line 
 open Ak Ak.Proto ColorsConf
 
 structure DrvState where
-  world : Option World
+  world : Option GWorld
   dead : Bool
   classes : List ClassDef
 
@@ -96,6 +100,15 @@ def showIds (m : SMap) : String :=
   "ok " ++ ";".intercalate (ids.map fun id =>
     showCps id ++ ":" ++ (match lookup m id with | some ⟨_, _, some _⟩ => "R" | _ => "U"))
 
+/-- what `make_report()` shows per id: resolved or not, and the formatter applied to the description -/
+def showReport (m : SMap) : String :=
+  let ids := sortIds (m.map (·.1))
+  if ids.isEmpty then "ok none" else
+  "ok " ++ ";".intercalate (ids.map fun id =>
+    match lookup m id with
+    | some ⟨_, _, some r⟩ => showCps id ++ ":R:" ++ showCps r.fmt
+    | _ => showCps id ++ ":U:-")
+
 def bool01 (s : String) : Option Bool :=
   if s = "0" then some false else if s = "1" then some true else none
 
@@ -107,8 +120,8 @@ where go : CfgItems → Bool
   | .cons _ (.str _) rest => go rest
   | .cons _ _ _ => false
 
-def doOp (st : DrvState) (w : World) (op : Op) : DrvState × String :=
-  match stepOp st.classes w op with
+def doOp (st : DrvState) (w : GWorld) (op : GOp) : DrvState × String :=
+  match stepG st.classes w op with
   | .ok (w', none) => ({ st with world := some w' }, "ok")
   | .ok (w', some s) => ({ st with world := some w' }, showSnap s)
   | .error e => ({ st with dead := true }, "err " ++ e.name)
@@ -136,29 +149,50 @@ def handle (st : DrvState) (line : String) : DrvState × String :=
       match bool01 nc, cfgOfTokens cfg with
       | some nc, some cfg =>
         match newConf nc cfg with
-        | .ok c => ({ st with world := some ⟨c, []⟩ }, "ok")
+        | .ok c => ({ st with world := some ⟨⟨c, []⟩, false, []⟩ }, "ok")
         | .error e => ({ st with dead := true }, "err " ++ e.name)
       | _, _ => (st, "bad-op")
     | "add", cfg =>
       match st.world, cfgOfTokens cfg with
-      | some w, some cfg => if isFlat cfg then doOp st w (.add (flatten cfg)) else (st, "bad-op")
+      | some w, some cfg => if isFlat cfg then doOp st w (.op (.add (flatten cfg))) else (st, "bad-op")
       | _, _ => (st, "bad-op")
     | "reg", name :: cfg =>
       match st.world, cpsOf name, cfgOfTokens cfg with
-      | some w, some name, some cfg => doOp st w (.reg name cfg)
+      | some w, some name, some cfg => doOp st w (.op (.reg name cfg))
       | _, _, _ => (st, "bad-op")
     | "pal", [k, nc] =>
       match st.world, k.toNat?, bool01 nc with
-      | some w, some k, some nc => if k < st.classes.length then doOp st w (.pal k nc) else (st, "bad-op")
+      | some w, some k, some nc => if k < st.classes.length then doOp st w (.op (.pal k nc)) else (st, "bad-op")
       | _, _, _ => (st, "bad-op")
     | "get", [id] =>
       match st.world, cpsOf id with
-      | some w, some id => (st, "ok " ++ showCps (getColor w.conf id))
+      | some w, some id => (st, "ok " ++ showCps (getColor w.w.conf id))
       | _, _ => (st, "bad-op")
     | "ids", [] =>
       match st.world with
-      | some w => (st, showIds w.conf.map)
+      | some w => (st, showIds w.w.conf.map)
       | none => (st, "bad-op")
+    | "rep", [] =>
+      match st.world with
+      | some w => (st, showReport w.w.conf.map)
+      | none => (st, "bad-op")
+    | "glob", [] =>
+      match st.world with
+      | some w => doOp st w .setGlobal
+      | none => (st, "bad-op")
+    | "syn", [k] =>
+      match st.world, k.toNat? with
+      | some w, some k =>
+        if k < st.classes.length then
+          -- before `glob` the palette shows another configuration's colours: nothing to compare
+          if w.isGlobal then doOp st w (.syn k) else ((doOp st w (.syn k)).1, "ok pre-global")
+        else (st, "bad-op")
+      | _, _ => (st, "bad-op")
+    | "sget", [k] =>
+      match st.world, k.toNat? with
+      | some w, some k =>
+        if (cacheGet w.synced k).isSome ∧ w.isGlobal then doOp st w (.sget k) else (st, "bad-op")
+      | _, _ => (st, "bad-op")
     | _, _ => (st, "bad-op")
   | [] => (st, "bad-op")
 
